@@ -24,7 +24,7 @@ for s in seeds:
         rc, o = sh(f'git -C /repo apply {d}/patch.diff')
         try:
             for c in ids:
-                rc, o = sh(f'./check {c}', cwd=V)
+                rc, o = sh(('' if c == own else 'VERIF_NO_ESCALATE=1 ') + f'./check {c}', cwd=V)
                 vl = [l for l in o.splitlines() if l.startswith('VIOLATION')]
                 concrete = [l for l in vl if 'no-failing-input-found' not in l]
                 row['checks'][c] = {'rc': rc, 'verdict': 'pass' if rc == 0 else ('concrete' if concrete else 'no-failing-input-found'), 'violations': len(vl)}
